@@ -199,6 +199,27 @@ Scalar MASA::fans_sa_transient_free_shear<Scalar>::eval_q_rho_u(Scalar x,Scalar 
   chi = RHO * NU_SA / mu;
   f_v1 = pow(chi, Scalar(0.3e1)) / (pow(chi, Scalar(0.3e1)) + pow(c_v1, Scalar(0.3e1)));
   Q_u = a_rhox * PI * rho_x * U * U * cos(a_rhox * PI * x / L) / L - a_rhoy * PI * rho_y * U * V * sin(a_rhoy * PI * y / L) / L - a_uy * PI * u_y * RHO * V * sin(a_uy * PI * y / L) / L + (Scalar(0.2e1) * a_ux * u_x * cos(a_ux * PI * x / L) + a_vy * v_y * cos(a_vy * PI * y / L)) * PI * RHO * U / L - a_px * PI * p_x * sin(a_px * PI * x / L) / L + (Scalar(0.4e1) / Scalar(0.3e1) * a_ux * a_ux * u_x * sin(a_ux * PI * x / L) + a_uy * a_uy * u_y * cos(a_uy * PI * y / L)) * f_v1 * PI * PI * RHO * NU_SA * pow(L, Scalar(-0.2e1)) + (Scalar(0.4e1) / Scalar(0.3e1) * a_ux * a_nusax * u_x * nu_sa_x * cos(a_ux * PI * x / L) * sin(a_nusax * PI * x / L) - a_uy * a_nusay * u_y * nu_sa_y * sin(a_uy * PI * y / L) * sin(a_nusay * PI * y / L) - a_vx * a_nusay * v_x * nu_sa_y * sin(a_vx * PI * x / L) * sin(a_nusay * PI * y / L) - Scalar(0.2e1) / Scalar(0.3e1) * a_vy * a_nusax * v_y * nu_sa_x * cos(a_vy * PI * y / L) * sin(a_nusax * PI * x / L)) * f_v1 * PI * PI * RHO * pow(L, Scalar(-0.2e1)) + (Scalar(-0.4e1) / Scalar(0.3e1) * a_rhox * a_ux * rho_x * u_x * cos(a_rhox * PI * x / L) * cos(a_ux * PI * x / L) + Scalar(0.2e1) / Scalar(0.3e1) * a_rhox * a_vy * rho_x * v_y * cos(a_rhox * PI * x / L) * cos(a_vy * PI * y / L) - a_rhoy * a_uy * rho_y * u_y * sin(a_rhoy * PI * y / L) * sin(a_uy * PI * y / L) - a_rhoy * a_vx * rho_y * v_x * sin(a_rhoy * PI * y / L) * sin(a_vx * PI * x / L)) * f_v1 * PI * PI * NU_SA * pow(L, Scalar(-0.2e1)) + (pow(c_v1, Scalar(0.3e1)) / (pow(chi, Scalar(0.3e1)) + pow(c_v1, Scalar(0.3e1))) + f_v1) * (Scalar(0.4e1) * a_ux * a_ux * u_x * sin(a_ux * PI * x / L) + Scalar(0.3e1) * a_uy * a_uy * u_y * cos(a_uy * PI * y / L)) * PI * PI * mu * pow(L, Scalar(-0.2e1)) / Scalar(0.3e1) + a_rhot * PI * rho_t * U * cos(a_rhot * PI * t / L) / L - a_ut * PI * u_t * RHO * sin(a_ut * PI * t / L) / L;
+  // The expansion above was generated with f_v1 held constant inside div(tau): add the terms that come from
+  // grad(f_v1), f_v1 = chi^3/(chi^3 + c_v1^3), chi = RHO*NU_SA/mu, so that mu_t = RHO*NU_SA*f_v1 is differentiated in full.
+  {
+    Scalar wk = PI / L;
+    Scalar dRHOdx =  a_rhox * wk * rho_x * cos(a_rhox * wk * x);
+    Scalar dRHOdy = -a_rhoy * wk * rho_y * sin(a_rhoy * wk * y);
+    Scalar dNUdx  = -a_nusax * wk * nu_sa_x * sin(a_nusax * wk * x);
+    Scalar dNUdy  = -a_nusay * wk * nu_sa_y * sin(a_nusay * wk * y);
+    Scalar dUdx   =  a_ux * wk * u_x * cos(a_ux * wk * x);
+    Scalar dUdy   = -a_uy * wk * u_y * sin(a_uy * wk * y);
+    Scalar dVdx   = -a_vx * wk * v_x * sin(a_vx * wk * x);
+    Scalar dVdy   =  a_vy * wk * v_y * cos(a_vy * wk * y);
+    Scalar cv13   = pow(c_v1, Scalar(0.3e1));
+    Scalar dfdchi = Scalar(0.3e1) * chi * chi * cv13 / ((pow(chi, Scalar(0.3e1)) + cv13) * (pow(chi, Scalar(0.3e1)) + cv13));
+    Scalar dfdx   = dfdchi * (dRHOdx * NU_SA + RHO * dNUdx) / mu;
+    Scalar dfdy   = dfdchi * (dRHOdy * NU_SA + RHO * dNUdy) / mu;
+    Scalar Sxx    = Scalar(0.4e1) / Scalar(0.3e1) * dUdx - Scalar(0.2e1) / Scalar(0.3e1) * dVdy;
+    Scalar Syy    = Scalar(0.4e1) / Scalar(0.3e1) * dVdy - Scalar(0.2e1) / Scalar(0.3e1) * dUdx;
+    Scalar Sxy    = dUdy + dVdx;
+    Q_u -= RHO * NU_SA * (dfdx * Sxx + dfdy * Sxy);
+  }
   return(Q_u);
 
 }
@@ -230,6 +251,27 @@ Scalar MASA::fans_sa_transient_free_shear<Scalar>::eval_q_rho_v(Scalar x,Scalar 
   chi = RHO * NU_SA / mu;
   f_v1 = pow(chi, Scalar(0.3e1)) / (pow(chi, Scalar(0.3e1)) + pow(c_v1, Scalar(0.3e1)));
   Q_v = a_rhox * PI * rho_x * U * V * cos(a_rhox * PI * x / L) / L - a_rhoy * PI * rho_y * V * V * sin(a_rhoy * PI * y / L) / L - a_vx * PI * v_x * RHO * U * sin(a_vx * PI * x / L) / L + (a_ux * u_x * cos(a_ux * PI * x / L) + Scalar(0.2e1) * a_vy * v_y * cos(a_vy * PI * y / L)) * PI * RHO * V / L + a_py * PI * p_y * cos(a_py * PI * y / L) / L + (a_vx * a_vx * v_x * cos(a_vx * PI * x / L) + Scalar(0.4e1) / Scalar(0.3e1) * a_vy * a_vy * v_y * sin(a_vy * PI * y / L)) * f_v1 * PI * PI * RHO * NU_SA * pow(L, Scalar(-0.2e1)) + (Scalar(-0.2e1) / Scalar(0.3e1) * a_ux * a_nusay * u_x * nu_sa_y * cos(a_ux * PI * x / L) * sin(a_nusay * PI * y / L) - a_uy * a_nusax * u_y * nu_sa_x * sin(a_uy * PI * y / L) * sin(a_nusax * PI * x / L) - a_vx * a_nusax * v_x * nu_sa_x * sin(a_vx * PI * x / L) * sin(a_nusax * PI * x / L) + Scalar(0.4e1) / Scalar(0.3e1) * a_vy * a_nusay * v_y * nu_sa_y * cos(a_vy * PI * y / L) * sin(a_nusay * PI * y / L)) * f_v1 * PI * PI * RHO * pow(L, Scalar(-0.2e1)) + (a_rhox * a_uy * rho_x * u_y * cos(a_rhox * PI * x / L) * sin(a_uy * PI * y / L) + a_rhox * a_vx * rho_x * v_x * cos(a_rhox * PI * x / L) * sin(a_vx * PI * x / L) - Scalar(0.2e1) / Scalar(0.3e1) * a_rhoy * a_ux * rho_y * u_x * sin(a_rhoy * PI * y / L) * cos(a_ux * PI * x / L) + Scalar(0.4e1) / Scalar(0.3e1) * a_rhoy * a_vy * rho_y * v_y * sin(a_rhoy * PI * y / L) * cos(a_vy * PI * y / L)) * f_v1 * PI * PI * NU_SA * pow(L, Scalar(-0.2e1)) + (pow(c_v1, Scalar(0.3e1)) / (pow(chi, Scalar(0.3e1)) + pow(c_v1, Scalar(0.3e1))) + f_v1) * (Scalar(0.3e1) * a_vx * a_vx * v_x * cos(a_vx * PI * x / L) + Scalar(0.4e1) * a_vy * a_vy * v_y * sin(a_vy * PI * y / L)) * PI * PI * mu * pow(L, Scalar(-0.2e1)) / Scalar(0.3e1) + a_rhot * PI * rho_t * V * cos(a_rhot * PI * t / L) / L + a_vt * PI * v_t * RHO * cos(a_vt * PI * t / L) / L;
+  // The expansion above was generated with f_v1 held constant inside div(tau): add the terms that come from
+  // grad(f_v1), f_v1 = chi^3/(chi^3 + c_v1^3), chi = RHO*NU_SA/mu, so that mu_t = RHO*NU_SA*f_v1 is differentiated in full.
+  {
+    Scalar wk = PI / L;
+    Scalar dRHOdx =  a_rhox * wk * rho_x * cos(a_rhox * wk * x);
+    Scalar dRHOdy = -a_rhoy * wk * rho_y * sin(a_rhoy * wk * y);
+    Scalar dNUdx  = -a_nusax * wk * nu_sa_x * sin(a_nusax * wk * x);
+    Scalar dNUdy  = -a_nusay * wk * nu_sa_y * sin(a_nusay * wk * y);
+    Scalar dUdx   =  a_ux * wk * u_x * cos(a_ux * wk * x);
+    Scalar dUdy   = -a_uy * wk * u_y * sin(a_uy * wk * y);
+    Scalar dVdx   = -a_vx * wk * v_x * sin(a_vx * wk * x);
+    Scalar dVdy   =  a_vy * wk * v_y * cos(a_vy * wk * y);
+    Scalar cv13   = pow(c_v1, Scalar(0.3e1));
+    Scalar dfdchi = Scalar(0.3e1) * chi * chi * cv13 / ((pow(chi, Scalar(0.3e1)) + cv13) * (pow(chi, Scalar(0.3e1)) + cv13));
+    Scalar dfdx   = dfdchi * (dRHOdx * NU_SA + RHO * dNUdx) / mu;
+    Scalar dfdy   = dfdchi * (dRHOdy * NU_SA + RHO * dNUdy) / mu;
+    Scalar Sxx    = Scalar(0.4e1) / Scalar(0.3e1) * dUdx - Scalar(0.2e1) / Scalar(0.3e1) * dVdy;
+    Scalar Syy    = Scalar(0.4e1) / Scalar(0.3e1) * dVdy - Scalar(0.2e1) / Scalar(0.3e1) * dUdx;
+    Scalar Sxy    = dUdy + dVdx;
+    Q_v -= RHO * NU_SA * (dfdx * Sxy + dfdy * Syy);
+  }
   return(Q_v);
 }
 
@@ -321,6 +363,32 @@ Scalar MASA::fans_sa_transient_free_shear<Scalar>::eval_q_rho_e(Scalar x,Scalar 
   Q_E = -(mu_t / Pr_t + mu / Pr) * (-(a_px * a_px * p_x * cos(a_px * PI * x / L) + a_py * a_py * p_y * sin(a_py * PI * y / L)) * cp * PI * PI * pow(L, Scalar(-0.2e1)) / R / RHO + (a_rhox * a_rhox * rho_x * sin(a_rhox * PI * x / L) + a_rhoy * a_rhoy * rho_y * cos(a_rhoy * PI * y / L)) * cp * PI * PI * P * pow(L, Scalar(-0.2e1)) / R * pow(RHO, Scalar(-0.2e1))) + (U * U + V * V) * a_rhox * PI * rho_x * U * cos(a_rhox * PI * x / L) / L / Scalar(0.2e1) - (a_rhox * a_rhox * rho_x * rho_x * pow(cos(a_rhox * PI * x / L), Scalar(0.2e1)) + a_rhoy * a_rhoy * rho_y * rho_y * pow(sin(a_rhoy * PI * y / L), Scalar(0.2e1))) * (Pr * mu_t + Scalar(0.2e1) * Pr_t * mu) * cp * PI * PI * P / Pr / Pr_t * pow(L, Scalar(-0.2e1)) / R * pow(RHO, Scalar(-0.3e1)) - (a_rhox * a_px * rho_x * p_x * cos(a_rhox * PI * x / L) * sin(a_px * PI * x / L) + a_rhoy * a_py * rho_y * p_y * sin(a_rhoy * PI * y / L) * cos(a_py * PI * y / L)) * (Pr * mu_t + Scalar(0.2e1) * Pr_t * mu) * cp * PI * PI / Pr / Pr_t * pow(L, Scalar(-0.2e1)) / R * pow(RHO, Scalar(-0.2e1)) - (a_rhox * a_nusax * rho_x * nu_sa_x * cos(a_rhox * PI * x / L) * sin(a_nusax * PI * x / L) - a_rhoy * a_nusay * rho_y * nu_sa_y * sin(a_rhoy * PI * y / L) * sin(a_nusay * PI * y / L)) * cp * PI * PI * mu_t * P * pow(L, Scalar(-0.2e1)) / Pr_t / R * pow(RHO, Scalar(-0.2e1)) / NU_SA - (a_px * a_nusax * p_x * nu_sa_x * sin(a_px * PI * x / L) * sin(a_nusax * PI * x / L) - a_py * a_nusay * p_y * nu_sa_y * cos(a_py * PI * y / L) * sin(a_nusay * PI * y / L)) * cp * PI * PI * mu_t * pow(L, Scalar(-0.2e1)) / Pr_t / R / RHO / NU_SA + (Scalar(0.4e1) / Scalar(0.3e1) * a_ux * a_nusax * u_x * nu_sa_x * cos(a_ux * PI * x / L) * sin(a_nusax * PI * x / L) - a_uy * a_nusay * u_y * nu_sa_y * sin(a_uy * PI * y / L) * sin(a_nusay * PI * y / L) - a_vx * a_nusay * v_x * nu_sa_y * sin(a_vx * PI * x / L) * sin(a_nusay * PI * y / L) - Scalar(0.2e1) / Scalar(0.3e1) * a_vy * a_nusax * v_y * nu_sa_x * cos(a_vy * PI * y / L) * sin(a_nusax * PI * x / L)) * PI * PI * f_v1 * RHO * U * pow(L, Scalar(-0.2e1)) + (Scalar(-0.2e1) / Scalar(0.3e1) * a_ux * a_nusay * u_x * nu_sa_y * cos(a_ux * PI * x / L) * sin(a_nusay * PI * y / L) - a_uy * a_nusax * u_y * nu_sa_x * sin(a_uy * PI * y / L) * sin(a_nusax * PI * x / L) - a_vx * a_nusax * v_x * nu_sa_x * sin(a_vx * PI * x / L) * sin(a_nusax * PI * x / L) + Scalar(0.4e1) / Scalar(0.3e1) * a_vy * a_nusay * v_y * nu_sa_y * cos(a_vy * PI * y / L) * sin(a_nusay * PI * y / L)) * PI * PI * f_v1 * RHO * V * pow(L, Scalar(-0.2e1)) + (Scalar(-0.4e1) / Scalar(0.3e1) * a_rhox * a_ux * rho_x * u_x * cos(a_rhox * PI * x / L) * cos(a_ux * PI * x / L) + Scalar(0.2e1) / Scalar(0.3e1) * a_rhox * a_vy * rho_x * v_y * cos(a_rhox * PI * x / L) * cos(a_vy * PI * y / L) - a_rhoy * a_uy * rho_y * u_y * sin(a_rhoy * PI * y / L) * sin(a_uy * PI * y / L) - a_rhoy * a_vx * rho_y * v_x * sin(a_rhoy * PI * y / L) * sin(a_vx * PI * x / L)) * PI * PI * f_v1 * U * NU_SA * pow(L, Scalar(-0.2e1)) + (a_rhox * a_uy * rho_x * u_y * cos(a_rhox * PI * x / L) * sin(a_uy * PI * y / L) + a_rhox * a_vx * rho_x * v_x * cos(a_rhox * PI * x / L) * sin(a_vx * PI * x / L) - Scalar(0.2e1) / Scalar(0.3e1) * a_rhoy * a_ux * rho_y * u_x * sin(a_rhoy * PI * y / L) * cos(a_ux * PI * x / L) + Scalar(0.4e1) / Scalar(0.3e1) * a_rhoy * a_vy * rho_y * v_y * sin(a_rhoy * PI * y / L) * cos(a_vy * PI * y / L)) * PI * PI * f_v1 * V * NU_SA * pow(L, Scalar(-0.2e1)) + (U * U + V * V) * a_rhot * PI * rho_t * cos(a_rhot * PI * t / L) / L / Scalar(0.2e1) + (f_v1 + pow(c_v1, Scalar(0.3e1)) / (pow(chi, Scalar(0.3e1)) + pow(c_v1, Scalar(0.3e1)))) * (Scalar(0.4e1) * a_ux * a_ux * u_x * sin(a_ux * PI * x / L) + Scalar(0.3e1) * a_uy * a_uy * u_y * cos(a_uy * PI * y / L)) * PI * PI * mu * U * pow(L, Scalar(-0.2e1)) / Scalar(0.3e1) + (f_v1 + pow(c_v1, Scalar(0.3e1)) / (pow(chi, Scalar(0.3e1)) + pow(c_v1, Scalar(0.3e1)))) * (Scalar(0.3e1) * a_vx * a_vx * v_x * cos(a_vx * PI * x / L) + Scalar(0.4e1) * a_vy * a_vy * v_y * sin(a_vy * PI * y / L)) * PI * PI * mu * V * pow(L, Scalar(-0.2e1)) / Scalar(0.3e1) - (a_uy * u_y * sin(a_uy * PI * y / L) + a_vx * v_x * sin(a_vx * PI * x / L)) * PI * RHO * U * V / L + (a_ux * u_x * cos(a_ux * PI * x / L) + a_vy * v_y * cos(a_vy * PI * y / L)) * cp * PI * P / L / R - a_ut * PI * u_t * RHO * U * sin(a_ut * PI * t / L) / L - (U * U + V * V) * a_rhoy * PI * rho_y * V * sin(a_rhoy * PI * y / L) / L / Scalar(0.2e1) + a_vt * PI * v_t * RHO * V * cos(a_vt * PI * t / L) / L + cp * a_py * PI * p_y * V * cos(a_py * PI * y / L) / L / R - cp * a_px * PI * p_x * U * sin(a_px * PI * x / L) / L / R + (Scalar(0.4e1) * a_ux * a_ux * u_x * sin(a_ux * PI * x / L) + Scalar(0.3e1) * a_uy * a_uy * u_y * cos(a_uy * PI * y / L)) * PI * PI * mu_t * U * pow(L, Scalar(-0.2e1)) / Scalar(0.3e1) + (Scalar(0.3e1) * a_vx * a_vx * v_x * cos(a_vx * PI * x / L) + Scalar(0.4e1) * a_vy * a_vy * v_y * sin(a_vy * PI * y / L)) * PI * PI * mu_t * V * pow(L, Scalar(-0.2e1)) / Scalar(0.3e1) + (Scalar(0.3e1) * a_ux * u_x * cos(a_ux * PI * x / L) + a_vy * v_y * cos(a_vy * PI * y / L)) * PI * RHO * U * U / L / Scalar(0.2e1) + (a_ux * u_x * cos(a_ux * PI * x / L) + Scalar(0.3e1) * a_vy * v_y * cos(a_vy * PI * y / L)) * PI * RHO * V * V / L / Scalar(0.2e1) - (f_v1 + pow(c_v1, Scalar(0.3e1)) / (pow(chi, Scalar(0.3e1)) + pow(c_v1, Scalar(0.3e1)))) * (Scalar(0.4e1) * a_ux * a_ux * u_x * u_x * pow(cos(a_ux * PI * x / L), Scalar(0.2e1)) - Scalar(0.4e1) * a_ux * a_vy * u_x * v_y * cos(a_ux * PI * x / L) * cos(a_vy * PI * y / L) + Scalar(0.3e1) * a_uy * a_uy * u_y * u_y * pow(sin(a_uy * PI * y / L), Scalar(0.2e1)) + Scalar(0.6e1) * a_uy * a_vx * u_y * v_x * sin(a_uy * PI * y / L) * sin(a_vx * PI * x / L) + Scalar(0.3e1) * a_vx * a_vx * v_x * v_x * pow(sin(a_vx * PI * x / L), Scalar(0.2e1)) + Scalar(0.4e1) * a_vy * a_vy * v_y * v_y * pow(cos(a_vy * PI * y / L), Scalar(0.2e1))) * PI * PI * mu * pow(L, Scalar(-0.2e1)) / Scalar(0.3e1) - (Scalar(0.4e1) * a_ux * a_ux * u_x * u_x * pow(cos(a_ux * PI * x / L), Scalar(0.2e1)) - Scalar(0.4e1) * a_ux * a_vy * u_x * v_y * cos(a_ux * PI * x / L) * cos(a_vy * PI * y / L) + Scalar(0.3e1) * a_uy * a_uy * u_y * u_y * pow(sin(a_uy * PI * y / L), Scalar(0.2e1)) + Scalar(0.6e1) * a_uy * a_vx * u_y * v_x * sin(a_uy * PI * y / L) * sin(a_vx * PI * x / L) + Scalar(0.3e1) * a_vx * a_vx * v_x * v_x * pow(sin(a_vx * PI * x / L), Scalar(0.2e1)) + Scalar(0.4e1) * a_vy * a_vy * v_y * v_y * pow(cos(a_vy * PI * y / L), Scalar(0.2e1))) * PI * PI * mu_t * pow(L, Scalar(-0.2e1)) / Scalar(0.3e1) + cv * a_rhot * PI * rho_t * P * cos(a_rhot * PI * t / L) / L / R / RHO;
   // unsteady part of d(rho*cv*T)/dt: rho*cv*dT/dt with T = P/(R*RHO)
   Q_E += cv * (-a_pt * PI * p_t * sin(a_pt * PI * t / L) / L - P * a_rhot * PI * rho_t * cos(a_rhot * PI * t / L) / L / RHO) / R;
+  // The expansion above was generated with f_v1 held constant inside div(tau.u) and div(k_t grad T): add the terms that come from
+  // grad(f_v1), f_v1 = chi^3/(chi^3 + c_v1^3), chi = RHO*NU_SA/mu, so that mu_t = RHO*NU_SA*f_v1 is differentiated in full.
+  {
+    Scalar wk = PI / L;
+    Scalar dRHOdx =  a_rhox * wk * rho_x * cos(a_rhox * wk * x);
+    Scalar dRHOdy = -a_rhoy * wk * rho_y * sin(a_rhoy * wk * y);
+    Scalar dNUdx  = -a_nusax * wk * nu_sa_x * sin(a_nusax * wk * x);
+    Scalar dNUdy  = -a_nusay * wk * nu_sa_y * sin(a_nusay * wk * y);
+    Scalar dUdx   =  a_ux * wk * u_x * cos(a_ux * wk * x);
+    Scalar dUdy   = -a_uy * wk * u_y * sin(a_uy * wk * y);
+    Scalar dVdx   = -a_vx * wk * v_x * sin(a_vx * wk * x);
+    Scalar dVdy   =  a_vy * wk * v_y * cos(a_vy * wk * y);
+    Scalar cv13   = pow(c_v1, Scalar(0.3e1));
+    Scalar dfdchi = Scalar(0.3e1) * chi * chi * cv13 / ((pow(chi, Scalar(0.3e1)) + cv13) * (pow(chi, Scalar(0.3e1)) + cv13));
+    Scalar dfdx   = dfdchi * (dRHOdx * NU_SA + RHO * dNUdx) / mu;
+    Scalar dfdy   = dfdchi * (dRHOdy * NU_SA + RHO * dNUdy) / mu;
+    Scalar Sxx    = Scalar(0.4e1) / Scalar(0.3e1) * dUdx - Scalar(0.2e1) / Scalar(0.3e1) * dVdy;
+    Scalar Syy    = Scalar(0.4e1) / Scalar(0.3e1) * dVdy - Scalar(0.2e1) / Scalar(0.3e1) * dUdx;
+    Scalar Sxy    = dUdy + dVdx;
+    Scalar dPdx   = -a_px * wk * p_x * sin(a_px * wk * x);
+    Scalar dPdy   =  a_py * wk * p_y * cos(a_py * wk * y);
+    Scalar dTdx   = (dPdx - P * dRHOdx / RHO) / (R * RHO);
+    Scalar dTdy   = (dPdy - P * dRHOdy / RHO) / (R * RHO);
+    Q_E -= RHO * NU_SA * (dfdx * (U * Sxx + V * Sxy) + dfdy * (U * Sxy + V * Syy));
+    Q_E -= cp / Pr_t * RHO * NU_SA * (dfdx * dTdx + dfdy * dTdy);
+  }
   return(Q_E);
 }
 
